@@ -12,6 +12,7 @@ mod common;
 mod geom;
 mod plan;
 mod proto;
+mod history;
 mod refenc;
 
 pub const PANIC: u128 = 340282366920938463463374607431768211455; // 2^128-1
@@ -31,6 +32,7 @@ fn run_case(family: &str, args: &[u128]) -> Vec<u128> {
         "agree_enc" => proto::agree_enc(args),
         "agree_dec" => proto::agree_dec(args),
         "agree_ob" => proto::agree_ob(args),
+        "history" => history::history(args),
         _ => panic!("unknown family {family}"),
     }
 }
